@@ -161,7 +161,12 @@ def run(R):
               "2-5 dimensions - and a few hundred or more than 4096 query vectors (more than 1e6 vector x facet products): every "
               "returned multiple must be finite, positive and put the vector on the boundary, 15 sampled vectors (incl. vertex "
               "directions) are compared with the exact model; 6 query points are projected onto the same hull (dual certificate). "
-              "Non-trivial: dimension >= 3 or a lattice/simplex/flat/large cloud.")
+              "MANY-POINT slices (own stream, 10 per quick run): 30-125 rows in 3-5 dimensions - random clouds on a coarse dyadic grid "
+              "(many rows are not hull vertices, interleaved at random with the vertices) and subsets of the lattices {0,1,2}^d / "
+              "{0..3}^d, dozens to hundreds of hull edges crossing the plane: every returned point is an exact all-pairs intersection "
+              "(model), every intersection of a hull edge (harness qhull; these carry all corners of the slice) and 30 sampled other "
+              "all-pairs intersections lie in the hull of the returned points. "
+              "Non-trivial: dimension >= 3 or a lattice/simplex/flat/large/many-point cloud.")
     jobs = []
     for k in range(n):
         if not R.want(k):
@@ -350,6 +355,62 @@ def run(R):
         rown = max(1.0, float(np.max(np.linalg.norm(G, axis=1))))
         R.count("what:nearest"); R.count("nearest-equations:%s" % ekind)
         jobs.append((dict(cbase, what="nearest", B=Q), (k, "nearest"), st, out, dict(G=G, h=h, Q=Q, ext=ext, rown=rown, eq=eq)))
+    # slices of clouds with MANY points (30-125 rows in 3-5 dimensions; own stream): random clouds on a coarse dyadic grid (a good part
+    # of the rows are interior or coplanar, i.e. not hull vertices, interleaved at random with the vertices) and subsets of the
+    # lattices {0,1,2}^d / {0,1,2,3}^d. The hull has dozens to hundreds of edges that cross the plane. Judged: every returned point is
+    # an exact segment/plane intersection (model, all pairs); every intersection of a HULL EDGE (vertex pairs of the facets of the
+    # harness's own qhull run - these carry all corners of the slice) and a random sample of 30 further all-pairs intersections lie in
+    # the hull of the returned points.
+    nm = 10 if R.tier == "quick" else 60
+    for j in range(nm):
+        k = n + 200 + j
+        if not R.want(k):
+            continue
+        rl = R.rng(8, k)
+        d = int(rl.choice([3, 4, 4, 5, 5, 5]))
+        mkind = str(rl.choice(["random-coarse", "random-coarse", "lattice-0..2", "lattice-0..3"]))
+        hull = None
+        for _ in range(6):
+            if mkind == "random-coarse":
+                P = rl.integers(0, 33, size=(int(rl.integers(30, 101)), d)).astype(np.float64) / 8.0
+            else:
+                L = 3 if mkind == "lattice-0..2" else 4
+                pts = np.array(list(product(np.arange(L, dtype=np.float64), repeat=d)))
+                P = pts[rl.permutation(len(pts))[: int(rl.integers(min(27, len(pts)), min(len(pts), 125) + 1))]]
+            try:
+                hull = ConvexHull(P)
+                break
+            except Exception:  # noqa: BLE001
+                mkind = "random-coarse"
+        if hull is None:
+            continue
+        sums = P.sum(1)
+        lkind = str(rl.choice(["interior", "interior", "through-a-point"]))
+        cval = float(sums.min() + float(dyadic(rl, 0.125, 0.875, 3)) * (sums.max() - sums.min()))
+        cand = sums[(sums > sums.min()) & (sums < sums.max())]
+        if lkind == "through-a-point" and len(cand):
+            cval = float(cand[int(rl.integers(len(cand)))])
+        else:
+            lkind = "interior"
+        # intersections of the hull's edges (all vertex pairs of every facet; for a non-simplicial facet also diagonals of it) with the plane
+        pairs = set()
+        for e in hull.simplices:
+            for a in e:
+                for b in e:
+                    if sums[a] < cval <= sums[b]:
+                        pairs.add((int(a), int(b)))
+        pairs = sorted(pairs)
+        E = np.array([P[a] + (cval - sums[a]) / (sums[b] - sums[a]) * (P[b] - P[a]) for a, b in pairs]).reshape(len(pairs), d)
+        nvert = len(hull.vertices)
+        c = dict(k=k, what="slice", dim=d, cloud_kind="many-points", cloud=mkind, P=P, c=cval, few_points=False, flat=None, level=lkind,
+                 n_points=len(P), n_hull_vertices=nvert, n_crossing_hull_edges=len(pairs))
+        R.count("what:slice"); R.count("cloud:many-points"); R.count("many-points:%s" % mkind); R.count("many-points:dim:%d" % d)
+        R.count("many-points:rows-that-are-not-hull-vertices:%s" % ("none" if nvert == len(P) else ("<half" if 2 * nvert > len(P) else ">=half")))
+        R.count("many-points:crossing-hull-edges:%s" % ("<50" if len(pairs) < 50 else ("50-149" if len(pairs) < 150 else ">=150")))
+        R.count("slice-level:%s" % lkind); R.count("slice:hull-edges")
+        R.driver.ask("s%d" % k, "section", ms(P), rs(cval))
+        st, out = call(dreye.proj_P_to_simplex, given(rl, P, R, "P"), cval)
+        jobs.append((c, (k,), st, out, dict(P=P, cval=cval, edge_points=E, sample_seed=int(rl.integers(2 ** 31)))))
     R.driver.run()
     for c, nontriv, st, out, X in jobs:
         k = c["k"]; what = c["what"]; d = c["dim"]
@@ -441,6 +502,17 @@ def run(R):
                     R.failB(dict(c, impl=out, point=r), "a returned point is not the intersection of a segment between two cloud points with the plane", sig + ":not-an-intersection")
                     break
             else:
+                if "edge_points" in X:
+                    # many-point cloud: (ii) the intersections of the hull's edges (they include every corner of the slice) and a random
+                    # sample of the other all-pairs intersections lie in the hull of the returned points
+                    smp = Mf[np.random.default_rng(X["sample_seed"]).permutation(len(Mf))[:30]]
+                    for s_ in np.vstack([X["edge_points"], smp]):
+                        if np.min(np.max(np.abs(out - s_), axis=1)) <= 1e-9 * sc:
+                            continue                       # it is one of the returned points
+                        if not in_conv_lp(out, s_, 1e-6 * sc):
+                            R.failB(dict(c, impl=out, missing=s_), "the point %s of conv(P) on the plane (on a segment between two cloud points) is outside the hull of the returned points: the slice is not exact" % s_.tolist(), sig + ":slice-incomplete")
+                            break
+                    continue
                 # (ii) every exact all-pairs intersection lies in the hull of the returned points (so the slice is complete)
                 for s_ in Mf:
                     if not in_conv_lp(out, s_, 1e-6 * sc):   # HiGHS itself is only feasible to 1e-7
